@@ -88,7 +88,9 @@ MkdirAll(f, p) ==
            THEN LET r == Resolve(f, p, TRUE) IN
                 IF ~IsErr(r) /\ r \in DOMAIN f /\ f[r].t = "dir" THEN [ok |-> TRUE, fs |-> f] ELSE [ok |-> FALSE, fs |-> f]
          ELSE [ok |-> FALSE, fs |-> f]
-    ELSE [ok |-> TRUE, fs |-> f @@ (p :> [t |-> "dir"])]     \* the parent exists: resolvePath checked it
+    \* the parent exists (resolvePath checked it) but may be a file: ENOTDIR
+    ELSE IF Front(p) \in DOMAIN f /\ f[Front(p)].t = "dir" THEN [ok |-> TRUE, fs |-> f @@ (p :> [t |-> "dir"])]
+    ELSE [ok |-> FALSE, fs |-> f]
 
 Create(f, p, content) ==
   IF GuardFinal /\ p \in DOMAIN f /\ f[p].t = "link" THEN [ok |-> FALSE, fs |-> f]
